@@ -58,6 +58,21 @@ CLAIMED = {
         ref="DESIGN.md §6 C19",
         technique="Lean 4 proof (list indexing over range/append, omega) + differential correspondence via Sem.src/Sem.pkg",
     ),
+    "C17": dict(
+        text="Lean 4 theorems over the model of hdl21/sim/proto.py (export_attr dispatch, export_analysis recursion with the exporter's name "
+        "counter, export_control / export_save, is_tb) for every Sim, any attributes in any order and sweep / Monte-Carlo nesting of any depth: "
+        "exported iff the testbench has exactly one scalar port, and then never refused; top is the testbench; controls and options are the "
+        "attributes of those kinds one to one in order, analyses the analysis attributes in order and nesting, equal to the originals but for "
+        "names; one entry per attribute; named analyses keep their names position by position, unnamed ones get Analysis{j} never used by the "
+        "designer, and all names are distinct whenever the designer's are (pigeonhole: a free name always exists); all five SaveTarget forms "
+        "translate. Tied to the code by random Sims in four construction styles, alone and in lists with shared testbenches, the whole "
+        "SimInput compared with the model's; every numeric field compared with the double nearest its exact value (fractions.Fraction).",
+        note="Model hand-written after sim/proto.py and sim/data.py. Numbers are carried as exact values: Lean's Float is opaque to the kernel, so "
+        "'the float nearest each prefixed value' is decided by the correspondence only. Noise outputs given as Diff bundle instances and "
+        "SaveMode.SELECTED are outside the generated alphabet (the exporter refuses both).",
+        ref="DESIGN.md §6 C17",
+        technique="Lean 4 proof (mutual structural recursion over nested analyses, pigeonhole via Mathlib List.Nodup.subperm) + differential correspondence",
+    ),
     "C14": dict(
         text="Lean 4 theorems (Mathlib ℚ) over the model of hdl21/prefix.py: add/sub/mul/neg/abs/scale return exactly the "
         "rational result for every mantissa, exponent and prefix pair; comparisons are total, satisfy trichotomy and the usual "
